@@ -759,6 +759,14 @@ def htmlKeyedOld (items : List View) (pos : Position) : Str × Position :=
 /-- `Result::Err` in `to_html_with_buf` **before the repair**: `<!>`, position untouched -/
 def htmlErrOld (pos : Position) : Str × Position := (marker, pos)
 
+/-- `ErrorBoundaryView::to_html_with_buf` (leptos/src/error_boundary.rs) before the repair of F-C05-7: the children
+were rendered with a *copy* of the position and the copy was dropped, so what follows the boundary was rendered from
+the position *before* it.  The tuple `(before…, <ErrorBoundary>{kids}</ErrorBoundary>, after…)` as that code printed
+it (regression witness; the repaired boundary is transparent: `.any`). -/
+def htmlEbOld (before : List View) (kids : View) (after : List View) : Str :=
+  htmlL true before .firstChild ++ html true kids (afterL true before .firstChild) ++
+    htmlL true after (afterL true before .firstChild)
+
 /-- does hydrating `v` against the DOM a browser builds from `s` succeed? -/
 def hydratesOn (s : Str) (v : View) : Bool :=
   match Html.parse s with
@@ -846,6 +854,36 @@ def suspTy (fid : Nat) : Ty := .elem "#suspend" [] (.arr fid .unit)
 def suspFid : Ty → Option Nat
   | .elem tag [] (.arr n .unit) => if tag = "#suspend" then some n else none
   | _ => none
+
+/-- the tag under which a `<Suspense>` / `<Transition>` boundary (leptos/src/suspense_component.rs `SuspenseBoundary`,
+fallback `()`) whose children have no asynchronous part is carried (`side`: which of the two views of a rebuild it
+belongs to — a rebuild always replaces a boundary).  For `hydrate` / `build` it is its children (plus the detached
+fallback it keeps alive); rendered asynchronously it is always *pending*: its future resolves once its task-set
+effect has run, one executor turn after rendering (`Stream.Fut.tick`), so it takes the same two branches as a
+pending `Suspend` — `next_id`, `push_async` + `NextChild` in order; `push_fallback` + `push_async_out_of_order`,
+position unchanged, out of order. -/
+def boundaryTy (side : Nat) : Ty := .elem "#suspense" [] (.arr side .unit)
+
+def isBoundary : Ty → Bool
+  | .elem tag [] (.arr _ .unit) => tag = "#suspense"
+  | _ => false
+
+def boundaryFut : Stream.Fut := { deps := [], tick := true }
+
+mutual
+/-- `<Suspense>` / `<Transition>` boundaries in a view -/
+def boundaries : View → Nat
+  | .elem _ _ c => boundaries c
+  | .tuple vs => boundariesL vs
+  | .osome v => boundaries v
+  | .either _ _ v => boundaries v
+  | .vec vs => boundariesL vs
+  | .any ty v => (if isBoundary ty then 1 else 0) + boundaries v
+  | _ => 0
+def boundariesL : List View → Nat
+  | [] => 0
+  | v :: vs => boundaries v + boundariesL vs
+end
 
 mutual
 /-- the client's view: every future is ready, `Suspend<T>` is one type whatever its future -/
@@ -986,7 +1024,12 @@ def compile (ooo : Bool) (done0 : List Nat) (esc : Bool) : View → Position →
     (r.1 ++ (if esc then [.sync marker] else []), if esc then .nextChild else r.2)
   | .any ty v, pos =>
     match suspFid ty with
-    | none => compile ooo done0 esc v pos
+    | none =>
+      if isBoundary ty then
+        (if ooo then
+          ([.nextId, .fallback marker, .ooo boundaryFut true (compileB ooo true v pos (fun _ => [])) none], pos)
+         else ([.nextId, .async boundaryFut (compileB ooo esc v pos (fun _ => []))], .nextChild))
+      else compile ooo done0 esc v pos
     | some f =>
       if done0.contains f then compile ooo done0 esc v pos
       else if ooo then
@@ -1018,7 +1061,11 @@ def Agree (ooo : Bool) (done0 : List Nat) (esc : Bool) : View → Position → B
   | .vec vs, pos => AgreeL ooo done0 esc vs pos
   | .any ty v, pos =>
     match suspFid ty with
-    | none => Agree ooo done0 esc v pos
+    | none =>
+      if isBoundary ty then
+        (if ooo then esc && AgreeB ooo true v pos && decide (after true v pos = pos)
+         else AgreeB ooo esc v pos && decide (after esc v pos = .nextChild))
+      else Agree ooo done0 esc v pos
     | some f =>
       if done0.contains f then Agree ooo done0 esc v pos
       else if ooo then esc && AgreeB ooo true v pos && decide (after true v pos = pos)
